@@ -28,13 +28,23 @@ theorem escapeByte_ascii {c : UInt8} (h : c.toNat < 128) : ∀ x ∈ escapeByte 
   · revert x; decide
   · simp only [List.mem_singleton] at hx; subst hx; exact h
 
-theorem escape_high (b : UInt8) (r : Bytes) (h : 128 ≤ b.toNat) : escape (b :: r) = b :: escape r := by
-  simp [escape, escapeByte_of_not_special (special_small h)]
+/-- a byte-wise text expansion that rewrites ASCII bytes into ASCII bytes and leaves every other byte alone -/
+structure Expansion where
+  f : Bytes → Bytes
+  g : UInt8 → Bytes
+  nil : f [] = []
+  cons : ∀ c cs, f (c :: cs) = g c ++ f cs
+  ascii : ∀ c, c.toNat < 128 → ∀ x ∈ g c, x.toNat < 128
+  high : ∀ c, 128 ≤ c.toNat → g c = [c]
 
-theorem escape_high_prefix : ∀ (mid r : Bytes), (∀ c ∈ mid, 128 ≤ c.toNat) → escape (mid ++ r) = mid ++ escape r
+theorem Expansion.high_cons (E : Expansion) (b : UInt8) (r : Bytes) (h : 128 ≤ b.toNat) : E.f (b :: r) = b :: E.f r := by
+  rw [E.cons, E.high b h]; rfl
+
+theorem Expansion.high_prefix (E : Expansion) : ∀ (mid r : Bytes), (∀ c ∈ mid, 128 ≤ c.toNat) →
+    E.f (mid ++ r) = mid ++ E.f r
   | [], r, _ => rfl
   | c :: cs, r, h => by
-    rw [List.cons_append, escape_high c _ (h c (by simp)), escape_high_prefix cs r (fun x hx => h x (by simp [hx]))]
+    rw [List.cons_append, E.high_cons c _ (h c (by simp)), E.high_prefix cs r (fun x hx => h x (by simp [hx]))]
     rfl
 
 theorem decodeOne_ascii {c : UInt8} (h : c.toNat < 128) (r : Bytes) : utf8DecodeOne (c :: r) = some (c.toNat, r) := by
@@ -144,9 +154,9 @@ theorem decodeOne_shape {b0 : UInt8} {rest r : Bytes} {cp : Nat} (h : utf8Decode
       · cases h
     · cases h
 
-theorem decodeFuel_escape : ∀ (n : Nat) (b : Bytes), b.length ≤ n → (utf8DecodeFuel n b).isSome = true →
-    ∀ m, (escape b).length ≤ m → (utf8DecodeFuel m (escape b)).isSome = true
-  | _, [], _, _, m, _ => by cases m <;> simp [escape, utf8DecodeFuel]
+theorem decodeFuel_expand (E : Expansion) : ∀ (n : Nat) (b : Bytes), b.length ≤ n → (utf8DecodeFuel n b).isSome = true →
+    ∀ m, (E.f b).length ≤ m → (utf8DecodeFuel m (E.f b)).isSome = true
+  | _, [], _, _, m, _ => by cases m <;> simp [E.nil, utf8DecodeFuel]
   | 0, _ :: _, hn, _, _, _ => by simp at hn
   | k + 1, b0 :: rest, hn, hv, m, hm => by
     simp only [utf8DecodeFuel] at hv
@@ -157,27 +167,57 @@ theorem decodeFuel_escape : ∀ (n : Nat) (b : Bytes), b.length ≤ n → (utf8D
       simp only [hd, Option.isSome_map] at hv
       rcases decodeOne_shape hd with ⟨hascii, hr⟩ | ⟨hhigh, mid, hrest, hmid, hsame⟩
       · subst hr
-        have hE := escapeByte_ascii hascii
-        have hlen : (escapeByte b0).length ≤ m := by
-          simp only [escape, List.length_append] at hm; omega
-        simp only [escape]
+        have hE := E.ascii b0 hascii
+        rw [E.cons] at hm ⊢
+        have hlen : (E.g b0).length ≤ m := by
+          simp only [List.length_append] at hm; omega
         rw [decodeFuel_ascii _ _ m hE hlen]
-        exact decodeFuel_escape k r (by simpa using hn) hv _
-          (by simp only [escape, List.length_append] at hm; omega)
+        exact decodeFuel_expand E k r (by simpa using hn) hv _
+          (by simp only [List.length_append] at hm; omega)
       · subst hrest
-        have he : escape (b0 :: (mid ++ r)) = b0 :: (mid ++ escape r) := by
-          rw [escape_high b0 _ hhigh, escape_high_prefix mid r hmid]
+        have he : E.f (b0 :: (mid ++ r)) = b0 :: (mid ++ E.f r) := by
+          rw [E.high_cons b0 _ hhigh, E.high_prefix mid r hmid]
         rw [he] at hm ⊢
         cases m with
         | zero => simp at hm
         | succ m' =>
-          simp only [utf8DecodeFuel, hsame (escape r), Option.isSome_map]
-          exact decodeFuel_escape k r (by simp at hn; omega) hv m'
+          simp only [utf8DecodeFuel, hsame (E.f r), Option.isSome_map]
+          exact decodeFuel_expand E k r (by simp at hn; omega) hv m'
             (by simp only [List.length_cons, List.length_append] at hm; omega)
 
-/-- **escaping a valid UTF-8 string gives a valid UTF-8 string** -/
-theorem utf8Valid_escape {b : Bytes} (h : utf8Valid b = true) : utf8Valid (escape b) = true := by
+theorem utf8Valid_expand (E : Expansion) {b : Bytes} (h : utf8Valid b = true) : utf8Valid (E.f b) = true := by
   unfold utf8Valid utf8Decode at *
-  exact decodeFuel_escape b.length b (Nat.le_refl _) h _ (Nat.le_refl _)
+  exact decodeFuel_expand E b.length b (Nat.le_refl _) h _ (Nat.le_refl _)
+
+def escapeExpansion : Expansion where
+  f := escape
+  g := escapeByte
+  nil := rfl
+  cons := fun _ _ => rfl
+  ascii := fun _ h => escapeByte_ascii h
+  high := fun _ h => escapeByte_of_not_special (special_small h)
+
+theorem escapeTextByte_ascii {c : UInt8} (h : c.toNat < 128) : ∀ x ∈ escapeTextByte c, x.toNat < 128 := by
+  by_cases hcr : c = 13
+  · subst hcr; decide
+  · cases hs : isSpecial c with
+    | false => rw [escapeTextByte_plain hs hcr]; intro x hx; simp only [List.mem_singleton] at hx; subst hx; exact h
+    | true => rw [escapeTextByte_special hs]; exact escapeByte_ascii h
+
+def escapeTextExpansion : Expansion where
+  f := escapeText
+  g := escapeTextByte
+  nil := rfl
+  cons := escapeText_cons
+  ascii := fun _ h => escapeTextByte_ascii h
+  high := fun c h => escapeTextByte_plain (special_small h) (by intro hc; subst hc; simp at h)
+
+/-- **escaping a valid UTF-8 string gives a valid UTF-8 string** (quick-xml's `escape`) -/
+theorem utf8Valid_escape {b : Bytes} (h : utf8Valid b = true) : utf8Valid (escape b) = true :=
+  utf8Valid_expand escapeExpansion h
+
+/-- … and so does `xml/ser.rs::text` -/
+theorem utf8Valid_escapeText {b : Bytes} (h : utf8Valid b = true) : utf8Valid (escapeText b) = true :=
+  utf8Valid_expand escapeTextExpansion h
 
 end S3V.Xml
